@@ -101,10 +101,7 @@ func runC09(w *h.W, batch int) {
 	}
 	// exhaustive part: small topologies, {ok,err}^(hosts*tries); the batches split the script space
 	small := []c09Topo{{1, 1, 0, 0}, {1, 2, 0, 0}, {2, 1, 0, 0}, {1, 1, 1, 1}, {2, 2, 0, 0}, {2, 1, 1, 1}, {1, 2, 1, 1}, {2, 2, 1, 1}}
-	nb := 16
-	if !w.Quick() {
-		nb = 128
-	}
+	nb := nbOf("C09", w.Tier)
 	idx := 0
 	for ti, topo := range small {
 		hosts := topo.hs*topo.hr + topo.cs*topo.cr
